@@ -130,6 +130,16 @@ def replay_family(chk: Check, fam, data, tier):
                         bad = np.nonzero(dec & (got != (want == 1)))[0]
                         if len(bad):
                             report(chk, kind, els, aff, subtype, box, B, int(bad[0]), "array", bool(got[bad[0]]), int(want[bad[0]]))
+                        if b % 97 == 3 and oi == order_ids[0] and len(arr) >= 3 and chk.budget("tiled", 60 if tier == "quick" else 600):
+                            # the same elements tiled to a large array (size thresholds / chunked or parallel kernel builds)
+                            from .measures import tiled
+                            big, bpos = tiled(arr)
+                            gb = np.asarray(big.intersects_bounds(box))
+                            chk.count(len(big))
+                            if gb.shape != (len(big),) or not np.array_equal(gb, got[bpos]):
+                                j = int(np.nonzero(gb != got[bpos])[0][0]) if gb.shape == (len(big),) else 0
+                                report(chk, kind, els, aff, subtype, box, B, int(bpos[j]), f"array tiled to {len(big)} elements (position {j})", bool(gb[j]) if gb.shape == (len(big),) else None,
+                                       int(want[bpos[j]]))
                         got_i = np.asarray(arr.intersects_bounds(box, indsk))
                         if not np.array_equal(got_i, got[indsk]):
                             j = int(np.nonzero(got_i != got[indsk])[0][0])
